@@ -87,6 +87,7 @@ struct vthread {
     int prio;
     void *(*fn) (void *);
     void *arg;
+    int cancel_pending;         /* pthread_cancel seen; acts at the next cancellation point (deferred) */
     long vid;                   /* virtual thread id handed to pdsh as its pthread_t */
     int vid_reused;             /* the id belonged to an earlier, finished thread */
 };
@@ -263,6 +264,10 @@ static int op_enabled(struct vthread *t)
         return h->conn_kind != CONN_HANG && h->conn_at <= vclock;
     }
     case OP_DESTROYEND: return !vhosts[t->pend.a].destroy_hang;
+    case OP_JOIN: {
+        struct vthread *x = thread_of(*(pthread_t *) t->pend.obj);
+        return !x || !x->alive;
+    }
     case OP_NONE: return 0;
     default: return 1;
     }
@@ -347,6 +352,12 @@ static void finish(const char *status, int code)
     fprintf(stdout, "\n");
     __real_fflush(stdout);
     _exit(0);
+}
+
+static int is_cancel_point(int kind)
+{
+    return kind == OP_SLEEP || kind == OP_SIGWAIT || kind == OP_POLL || kind == OP_READ || kind == OP_WAIT ||
+        kind == OP_WAKE || kind == OP_JOIN;
 }
 
 /* ------------------------------------------------------------------ performing an operation */
@@ -460,11 +471,26 @@ static int apply(struct vthread *t, int spurious, int inl)
     }
     case OP_CANCEL: {
         struct vthread *x = thread_of(*(pthread_t *) o->obj);
-        if (x && x->alive) { x->alive = 0; vid_release(x); }    /* every blocking wrapped call is a cancellation point */
+        /* deferred cancellation: the target ends at a cancellation point (sleep, sigwait, poll, read,
+         * cond_wait); if it is not in one now, it ends when it reaches the next one (sched_do) */
+        if (x && x->alive) {
+            if (is_cancel_point(x->pend.kind)) { x->alive = 0; vid_release(x); }
+            else x->cancel_pending = 1;
+        }
         if (!q) { evhdr(t, inl); fprintf(stdout, "cancel %s\n", x ? x->name : "?"); }
         o->ret = 0;
         return 1;
     }
+    case OP_JOIN: {
+        struct vthread *x = thread_of(*(pthread_t *) o->obj);
+        if (!q) { evhdr(t, inl); fprintf(stdout, "join %s\n", x ? x->name : "?"); }
+        o->ret = 0;
+        return 1;
+    }
+    case OP_MEM:
+        if (!q) { evhdr(t, inl); fprintf(stdout, "mem %s tc\n", o->a ? "w" : "r"); }
+        o->ret = 0;
+        return 1;
     case OP_SIGMASK:
         if (!q) { evhdr(t, inl); fprintf(stdout, "sigmask %ld\n", o->a); }
         o->ret = 0;
@@ -787,6 +813,17 @@ struct op *sched_do(struct op o)
     struct vthread *me = self;
     if (!me) sched_bug("wrapped call from an unknown thread");
     me->pend = o;
+    if (me->cancel_pending && is_cancel_point(o.kind)) {
+        /* the cancelled thread reaches a cancellation point: it ends here */
+        me->cancel_pending = 0;
+        me->alive = 0;
+        vid_release(me);
+        me->pend.kind = OP_NONE;
+        if (trace_inline) fprintf(stdout, "I %s cancelled\n", me->name);
+        if (me->eager) { me->eager = 0; sem_post(&handback); }
+        else schedule_loop(me);
+        for (;;) pause();
+    }
     if (!(yield_mask & o.cls) && o.kind != OP_WAIT && op_enabled(me)) {
         /* not a scheduling point; a thread that performs operations forever without ever reaching
          * a scheduling point is reported (status=spin) instead of filling the disk */
@@ -803,6 +840,13 @@ struct op *sched_do(struct op o)
     }
     schedule_loop(me);
     return &me->pend;
+}
+
+void sched_mem(struct op o)
+{
+    /* only memory accesses made by pdsh code of the running pdsh thread count, and only when the case asks for them */
+    if (!self || !(yield_mask & Y_MEM) || !self->alive) return;
+    sched_do(o);
 }
 
 static void *tramp(void *p)
@@ -864,6 +908,17 @@ int __wrap_pthread_cancel(pthread_t p)
 {
     pthread_t pp = p;
     struct op o = { .kind = OP_CANCEL, .cls = Y_SIG, .obj = &pp };
+    return (int) sched_do(o)->ret;
+}
+int __wrap_pthread_join(pthread_t p, void **ret)
+{
+    static pthread_t pp[MAXT];
+    struct vthread *me = self;
+    struct op o = { .kind = OP_JOIN, .cls = Y_SIG };
+    if (!me) return 0;
+    pp[me->id] = p;             /* the handle must outlive this frame while the operation is pending */
+    o.obj = &pp[me->id];
+    if (ret) *ret = NULL;
     return (int) sched_do(o)->ret;
 }
 int __wrap_pthread_sigmask(int how, const sigset_t *set, sigset_t *old)
@@ -980,6 +1035,7 @@ static int yield_of(const char *s)
     if (strstr(s, "io")) m |= Y_IO;
     if (strstr(s, "sig")) m |= Y_SIG;
     if (strstr(s, "sleep")) m |= Y_SLEEP;
+    if (strstr(s, "mem")) m |= Y_MEM;
     if (strstr(s, "all")) m |= Y_FAN | Y_THD | Y_TIME | Y_IO | Y_SIG | Y_SLEEP;
     return m;
 }
